@@ -85,13 +85,22 @@ pub fn ref_composite(pw: &Option<String>, kf: &Option<Vec<u8>>) -> Option<Vec<u8
 
 pub fn make_key(pw: &Option<String>, kf: &Option<Vec<u8>>) -> DatabaseKey {
     let mut k = DatabaseKey::new();
-    if let Some(p) = pw {
-        k = k.with_password(p);
+    // the builder calls commute: half of the keys are built key file first, password second
+    let keyfile_first = kf.as_ref().map(|f| (f.len() + f.last().copied().unwrap_or(0) as usize) % 2 == 1).unwrap_or(false);
+    if !keyfile_first {
+        if let Some(p) = pw {
+            k = k.with_password(p);
+        }
     }
     if let Some(f) = kf {
         // the key file arrives through a reader that delivers it in pieces (a pipe, a chained reader): a conforming `Read`
         let cap = [usize::MAX, 1, 7, 512, 4096][(f.len() + f.first().copied().unwrap_or(0) as usize) % 5];
         k = k.with_keyfile(&mut PieceReader { data: f, pos: 0, cap }).unwrap();
+    }
+    if keyfile_first {
+        if let Some(p) = pw {
+            k = k.with_password(p);
+        }
     }
     k
 }
@@ -133,6 +142,13 @@ fn gen_keyfile(rng: &mut Rng) -> (Vec<u8>, &'static str) {
         0 => (rng.bytes(32), "raw32"),
         1 => {
             let n = *rng.pick(&[0usize, 1, 31, 33, 64, 200, 65_537, 70_000, 200_000]);
+            if rng.chance(1, 3) {
+                // an opaque key file that happens to begin with a UTF-8 byte order mark (a passphrase file saved by an editor;
+                // BOM + 32 bytes is not the "raw 32 bytes" format): every byte of it counts
+                let mut v = vec![0xEF, 0xBB, 0xBF];
+                v.extend(rng.bytes_pick(&[32usize, 29, 64, 10]));
+                return (v, "arbitrary-with-bom");
+            }
             (rng.bytes(n), "arbitrary")
         }
         2 => (hexkey(rng, 32, false).into_bytes(), "hex64-text"),
